@@ -18,7 +18,7 @@ META = dict(
         quick="all reactant/product graph pairs on a shared node set of n<=3 atoms (every bond order per side symbolic in "
               "{0,1,1.5,2,3}, 0 = absent; element in {C,H,N,O} shared per atom; aromatic, hcount 0..3, charge -1..1 "
               "symbolic per side), all H-side node insertion orders and edge orientations, balance_its/store in all 4 "
-              "combinations, ignore_aromaticity on/off; n=4 with one insertion order",
+              "combinations, ignore_aromaticity on/off; n=4 with one insertion order under the sparse atom numbers 1,2,4,9; n=3 under 2,10,31",
         thorough="n=4 with solver-chosen insertion order and orientations, all flag combinations",
     ),
     outside=["rsmi_to_its / its_to_rsmi / SMILES re-rooting / fragment order / unmapped reactants and products: RDKit on "
@@ -33,8 +33,8 @@ WALL = dict(quick=150, thorough=1500)
 MIN_PATHS = dict(quick=300, thorough=3000)
 
 
-def build_reaction(E, n, h_order=None, orient=True, hmax=3):
-    nodes = list(range(1, n + 1))
+def build_reaction(E, n, h_order=None, orient=True, hmax=3, ids=None):
+    nodes = list(ids) if ids else list(range(1, n + 1))
     el = {v: E.choice("el%d" % v, ELS) for v in nodes}
     lab = {}
     for side in "GH":
@@ -68,7 +68,7 @@ def build_reaction(E, n, h_order=None, orient=True, hmax=3):
     return nodes, lab, o, pres, G, H
 
 
-def h_roundtrip(E, n, balance_its, store, ignore_aromaticity, entry, perm_h, orient):
+def h_roundtrip(E, n, balance_its, store, ignore_aromaticity, entry, perm_h, orient, ids=None):
     from synkit.Graph.ITS.its_construction import ITSConstruction
     from synkit.Graph.ITS.its_decompose import its_decompose
 
@@ -77,7 +77,9 @@ def h_roundtrip(E, n, balance_its, store, ignore_aromaticity, entry, perm_h, ori
         h_order = [int(x) + 1 for x in E.perm("hord", n)]
     elif perm_h == "rev":
         h_order = list(range(n, 0, -1))
-    nodes, lab, o, pres, G, H = build_reaction(E, n, h_order, orient)
+    if ids and h_order:
+        h_order = [ids[i - 1] for i in h_order]
+    nodes, lab, o, pres, G, H = build_reaction(E, n, h_order, orient, ids=ids)
     if entry == "ITSGraph":
         its = ITSConstruction.ITSGraph(G, H, ignore_aromaticity=ignore_aromaticity, balance_its=balance_its, store=store)
     else:
@@ -147,9 +149,12 @@ def shards(tier, seed):
                                                entry="ITSGraph", perm_h="sym", orient=True)))
     sh.append(dict(h="roundtrip", params=dict(n=2, balance_its=False, store=False, ignore_aromaticity=True,
                                                entry="ITSGraph", perm_h="sym", orient=True)))
+    # sparse, non-contiguous and multi-digit atom numbers (nothing in the property ties the numbering to 1..N)
+    sh.append(dict(h="roundtrip", params=dict(n=3, balance_its=False, store=False, ignore_aromaticity=False,
+                                               entry="construct", perm_h="rev", orient=False, ids=[2, 10, 31])))
     if tier == "quick":
         sh.append(dict(h="roundtrip", params=dict(n=4, balance_its=False, store=False, ignore_aromaticity=False,
-                                                   entry="ITSGraph", perm_h="rev", orient=False)))
+                                                   entry="ITSGraph", perm_h="rev", orient=False, ids=[1, 2, 4, 9])))
     else:
         for bal, store in flags:
             for ign in (False, True):
@@ -157,4 +162,8 @@ def shards(tier, seed):
                                                            entry="construct", perm_h="rev", orient=True)))
         sh.append(dict(h="roundtrip", params=dict(n=4, balance_its=False, store=False, ignore_aromaticity=False,
                                                    entry="ITSGraph", perm_h="sym", orient=False)))
+        sh.append(dict(h="roundtrip", params=dict(n=4, balance_its=False, store=False, ignore_aromaticity=False,
+                                                   entry="construct", perm_h="rev", orient=False, ids=[1, 2, 4, 9])))
+        sh.append(dict(h="roundtrip", params=dict(n=4, balance_its=False, store=False, ignore_aromaticity=False,
+                                                   entry="construct", perm_h="rev", orient=False, ids=[3, 10, 11, 25])))
     return sh
